@@ -74,11 +74,11 @@ Qed.
 Lemma supported_inv d :
   supported d = true ->
   exists ss, classify d = Ok ss /\ grammar d = Some ss /\ NoDup (model_names ss) /\
-    forall nm, In nm (model_names ss) -> body_ok nm (body_of nm [] ss) = true.
+    (forall nm, In nm (model_names ss) -> body_ok nm (body_of nm [] ss) = true) /\ hdr_sorted 3 ss = true.
 Proof.
   unfold supported. destruct (classify d) as [a|] eqn:Ec; [|discriminate].
   destruct (grammar d) as [b|] eqn:Eg; [|discriminate]. intro Hs.
-  apply andb_true_iff in Hs as [Hs _]. apply andb_true_iff in Hs as [Hs Hb]. apply andb_true_iff in Hs as [Hs Hnd]. apply andb_true_iff in Hs as [Heq _].
+  apply andb_true_iff in Hs as [Hs Hsorted]. apply andb_true_iff in Hs as [Hs Hb]. apply andb_true_iff in Hs as [Hs Hnd]. apply andb_true_iff in Hs as [Heq _].
   apply stmts_eqb_eq in Heq. subst b. exists a. repeat split; auto.
   - apply nodup_strs_NoDup. exact Hnd.
   - intros nm Hn. rewrite forallb_forall in Hb. apply Hb. exact Hn.
@@ -107,14 +107,14 @@ Qed.
 Theorem sound_full d n : supported d = true -> elab d = Ok n -> denote d n.
 Proof.
   intros Hs He. destruct (sound_insts d n Hs He) as [ss0 [Hg0 Hinst]].
-  destruct (supported_inv d Hs) as [ss [Ec [Eg [Hnd Hbody]]]].
+  destruct (supported_inv d Hs) as [ss [Ec [Eg [Hnd [Hbody Hsorted]]]]].
   assert (ss0 = ss) by congruence. subst ss0. clear Hg0.
   exists ss. split; [exact Eg|].
   pose proof (elab_inv d n He) as [Hndn HWF].
   unfold elab, elab_stmts in He. rewrite Ec in He. cbn [bind] in He. apply bind_ok in He as [s [Hx Hfin]].
-  pose proof (classify_top_ok d ss Ec) as Htop.
+  pose proof (classify_top_ok d ss (classify_ok _ _ Ec)) as Htop.
   pose proof (grammar_closed d GTop ss Eg) as Hclosed. cbn [g_inside] in Hclosed.
-  pose proof (classify_hdr d MTop ss Ec) as Hhdr. cbn [phase] in Hhdr.
+  pose proof (hdr_sorted_ss ss 3 Hsorted) as Hhdr.
   assert (Hne : ~ In [] (model_names ss)).
   { intro Hin. destruct (body_ok_inv _ _ (Hbody _ Hin)) as [_ [_ [H _]]]. apply H. reflexivity. }
   assert (Hok : Forall okstmt ss).
@@ -264,6 +264,89 @@ Proof.
   - eexists. eexists. split; [right; right; right; left; reflexivity|]. split; [left; reflexivity|]. cbn. split; [left; reflexivity|].
     right. right. left. reflexivity.
   - vm_compute. reflexivity.
+Qed.
+
+(* REPAIRED (findings header-gap, comment-splits-instance-info, missing-final-end; parse_model_ports /
+   parse_instance_info / parse_name now look at the next statement through peek_statement, which reads comment
+   lines, skips blank lines and answers None at the end of the file).  The former refutation witnesses are
+   supported documents and are read as they stand *)
+Lemma header_gap_repaired :
+  supported doc_header_gap = true /\
+  exists n m, elab doc_header_gap = Ok n /\ denote doc_header_gap n /\ find_model nm_top (b_models n) = Some m /\
+    map (fun q => (p_name q, p_dir q)) (m_ports m) = gap_ports /\
+    same_wire m pin_a pin_i0.
+Proof.
+  assert (Hs : supported doc_header_gap = true) by (vm_compute; reflexivity).
+  split; [exact Hs|].
+  remember (elab doc_header_gap) as r eqn:Er. pose proof Er as Er0. vm_compute in Er. subst r.
+  eexists. eexists. split; [reflexivity|]. split; [apply (sound_full _ _ Hs); symmetry; exact Er0|].
+  split; [vm_compute; reflexivity|]. split; [vm_compute; reflexivity|].
+  eexists. eexists. split; [left; reflexivity|]. split; [left; reflexivity|]. cbn. split; [left; reflexivity|].
+  right. left. reflexivity.
+Qed.
+
+Lemma comment_in_info_repaired :
+  supported doc_comment_in_info = true /\
+  exists n m, elab doc_comment_in_info = Ok n /\ denote doc_comment_in_info n /\ find_model nm_top (b_models n) = Some m /\
+    map i_cname (m_insts m) = u1_names /\ map i_name (m_insts m) = u1_names /\
+    b_comments n = info_comment.
+Proof.
+  assert (Hs : supported doc_comment_in_info = true) by (vm_compute; reflexivity).
+  split; [exact Hs|].
+  remember (elab doc_comment_in_info) as r eqn:Er. pose proof Er as Er0. vm_compute in Er. subst r.
+  eexists. eexists. split; [reflexivity|]. split; [apply (sound_full _ _ Hs); symmetry; exact Er0|].
+  split; [vm_compute; reflexivity|]. repeat split; vm_compute; reflexivity.
+Qed.
+
+(* comments and blank lines at every line boundary, no final .end: supported, read faithfully; both
+   instances keep their data, the truth table keeps both rows, all six comments are recorded *)
+Lemma gaps_faithful :
+  supported doc_gaps = true /\
+  exists n m, elab doc_gaps = Ok n /\ denote doc_gaps n /\ find_model nm_top (b_models n) = Some m /\
+    map i_cname (m_insts m) = gaps_cnames /\
+    map (fun i => length (i_covers i)) (m_insts m) = [2; 0] /\
+    map (fun i => (length (i_attr i), length (i_param i))) (m_insts m) = [(0, 0); (1, 1)] /\
+    length (m_ports m) = 4 /\ m_clock m = clock_a /\ m_lib m = LWork /\ length (b_comments n) = 7.
+Proof.
+  assert (Hs : supported doc_gaps = true) by (vm_compute; reflexivity).
+  split; [exact Hs|].
+  remember (elab doc_gaps) as r eqn:Er. pose proof Er as Er0. vm_compute in Er. subst r.
+  eexists. eexists. split; [reflexivity|]. split; [apply (sound_full _ _ Hs); symmetry; exact Er0|].
+  split; [vm_compute; reflexivity|]. repeat split; vm_compute; reflexivity.
+Qed.
+
+(* the end of the file closes the model wherever it comes (before the repair: StopIteration) *)
+Lemma no_final_end_faithful :
+  forall d, In d [doc_no_end_inst; doc_no_end_rows; doc_no_end_hdr] ->
+  supported d = true /\ exists n, elab d = Ok n /\ denote d n /\ b_work n = [nm_top].
+Proof.
+  intros d Hd. cbn [In] in Hd. destruct Hd as [<-|[<-|[<-|[]]]].
+  - assert (Hs : supported doc_no_end_inst = true) by (vm_compute; reflexivity). split; [exact Hs|].
+    remember (elab doc_no_end_inst) as r eqn:Er. pose proof Er as Er0. vm_compute in Er. subst r.
+    eexists. split; [reflexivity|]. split; [apply (sound_full _ _ Hs); symmetry; exact Er0|vm_compute; reflexivity].
+  - assert (Hs : supported doc_no_end_rows = true) by (vm_compute; reflexivity). split; [exact Hs|].
+    remember (elab doc_no_end_rows) as r eqn:Er. pose proof Er as Er0. vm_compute in Er. subst r.
+    eexists. split; [reflexivity|]. split; [apply (sound_full _ _ Hs); symmetry; exact Er0|vm_compute; reflexivity].
+  - assert (Hs : supported doc_no_end_hdr = true) by (vm_compute; reflexivity). split; [exact Hs|].
+    remember (elab doc_no_end_hdr) as r eqn:Er. pose proof Er as Er0. vm_compute in Er. subst r.
+    eexists. split; [reflexivity|]. split; [apply (sound_full _ _ Hs); symmetry; exact Er0|vm_compute; reflexivity].
+Qed.
+
+(* port lines in another order are read (before the repair the .inputs line was dropped): both ports are
+   there with their directions and the input is on the gate's pin.  The document is outside [supported]
+   (conjunct hdr_sorted): the connectivity theorem is proved for inputs-first sections only *)
+Lemma outputs_first_reads :
+  supported doc_outputs_first = false /\
+  exists n m, elab doc_outputs_first = Ok n /\ find_model nm_top (b_models n) = Some m /\
+    map (fun q => (p_name q, p_dir q)) (m_ports m) = of_ports /\
+    m_clock m = clock_c /\ same_wire m pin_a pin_i0.
+Proof.
+  split; [vm_compute; reflexivity|].
+  remember (elab doc_outputs_first) as r eqn:Er. vm_compute in Er. subst r.
+  eexists. eexists. split; [reflexivity|]. split; [vm_compute; reflexivity|].
+  split; [vm_compute; reflexivity|]. split; [vm_compute; reflexivity|].
+  eexists. eexists. split; [right; left; reflexivity|]. split; [left; reflexivity|]. cbn. split; [left; reflexivity|].
+  right. left. reflexivity.
 Qed.
 
 (* reading a written file: when it is a supported document, the re-read netlist is what it says *)
